@@ -425,7 +425,20 @@ pub fn draw_literal(t: &mut Tape, p: &Profile) -> MTerm {
     match t.below(3) {
         0 => MTerm::Lit(lex, XSD_STRING.to_string()),
         1 => {
-            let dt = if t.chance(1, 10) { near_miss(t) } else { DT_POOL[t.below(DT_POOL.len())].to_string() };
+            let dt = if t.chance(1, 10) {
+                near_miss(t)
+            } else if t.chance(1, 12) {
+                // i18n datatypes (JSON-LD rdfDirection=i18n-datatype): language "_" direction,
+                // well-formed and not
+                const I18N: &[&str] = &[
+                    "en_ltr", "_rtl", "en-US_rtl", "fr_ltr", "ar-EG_rtl", "en_", "_", "", "en", "en_up", "EN_ltr",
+                    "en_ltr_x", "en_LTR", "e n_ltr",
+                ];
+                let v = I18N[t.below(I18N.len())].replace(' ', "%20");
+                format!("https://www.w3.org/ns/i18n#{v}")
+            } else {
+                DT_POOL[t.below(DT_POOL.len())].to_string()
+            };
             MTerm::Lit(lex, dt)
         }
         _ => {
